@@ -269,6 +269,9 @@ func MakeFiller(p *Plan, src string) node.Filler {
 				vals := make([]model.AV, len(es.Event.Inputs))
 				for i, in := range es.Event.Inputs {
 					vals[i] = RandValue(r, in, addrs)
+					if c.MarkStrings && in.Type == "string" {
+						vals[i].Str = c15Marker + vals[i].Str
+					}
 				}
 				l.Topics, l.Data = model.EncodeLog(es.Event, vals)
 				l.Tag = &model.LogTag{Sig: model.Signature(es.Event), NIdx: model.NumIndexed(es.Event), Values: vals}
